@@ -67,11 +67,20 @@ fn small_ref() -> Mesh {
     Mesh::new(rv, vec![[0, 1, 2], [0, 2, 3]], false)
 }
 
+/// A large plane through the origin tilted by 0.4 rad about x: its normal is not axis aligned, so nothing about
+/// the projection onto it is exact in floating point
+const TILT: f64 = 0.4;
+fn tilted_ref() -> Mesh {
+    let (c, s) = (TILT.cos(), TILT.sin());
+    let at = |u: f64, w: f64| Point3::new(u, w * c, w * s);
+    Mesh::new(vec![at(-6.0, -6.0), at(6.0, -6.0), at(6.0, 6.0), at(-6.0, 6.0)], vec![[0, 1, 2], [0, 2, 3]], false)
+}
+
 /// Reference meshes: two large planes (unambiguous normal) and an offset copy of the subject
 fn others(which: usize) -> Vec<Mesh> {
     let m = subject(which);
     let moved: Vec<Point3> = m.vertices().iter().map(|p| p + Vector3::new(0.05, 0.0, 0.1)).collect();
-    vec![plane_ref(0.0), plane_ref(-0.6), Mesh::new(moved, m.faces().to_vec(), false), small_ref()]
+    vec![plane_ref(0.0), plane_ref(-0.6), Mesh::new(moved, m.faces().to_vec(), false), small_ref(), tilted_ref()]
 }
 
 #[derive(Clone, Debug, Serialize, Deserialize)]
@@ -87,7 +96,7 @@ pub fn crits() -> Vec<Crit> {
             c.push(Crit::Facing(d, a));
         }
     }
-    for other in 0..4 {
+    for other in 0..5 {
         for all in [true, false] {
             for dist in [0.1, 1.5] {
                 for planar in [None, Some(0.2)] {
@@ -135,12 +144,14 @@ fn geometric(mesh: &Mesh, oth: &[Mesh], f: usize, crit: &Crit) -> Option<bool> {
             if *other == 2 {
                 return None;
             }
-            let rn = Vector3::new(0.0, 0.0, 1.0);
+            let rn = if *other == 4 { Vector3::new(0.0, -TILT.sin(), TILT.cos()) } else { Vector3::new(0.0, 0.0, 1.0) };
             let mut oks = Vec::new();
             for p in [a, b, c] {
                 // closest point of the reference: orthogonal projection onto the large planes, clamped to the
                 // border of the small square
-                let (cp, inside) = if *other == 3 {
+                let (cp, inside) = if *other == 4 {
+                    (p - rn * rn.dot(&p.coords), true)
+                } else if *other == 3 {
                     let [x0, x1, y0, y1] = SMALL;
                     (Point3::new(p.x.clamp(x0, x1), p.y.clamp(y0, y1), 0.0), true)
                 } else {
@@ -330,7 +341,7 @@ fn expand(t: &Tables, st: &State, depth: usize, l: &mut Local, out: &mut Vec<Sta
 
 pub fn run(tier: Tier) -> i32 {
     let mut cx = Ctx::new("C14", tier, "model_checking");
-    cx.rule = "explicit-state search over selections (bit sets over the faces of a tetrahedron, a two-normal 'roof', an octahedron, the roof with an extra zero-area face, the roof with rotated index triples and an unwelded two-sided sheet): initial states none, all, every singleton, every pair; actions {Add, Remove, Keep} x {facing: 7 directions x 3 angles; near_mesh: 4 reference meshes (two large planes, an offset copy, a small square whose border the subject overhangs) x all/any vertices x 2 distances x planar None/0.2 x angle None/0.3/1.0}; every transition (and the mesh built from every state) is executed under all hash-set iteration orders with at most 2 departures from the default order; the per-face predicate is computed (i) independently from the geometry for the plane references and (ii) by the code itself in the canonical context (singleton selection, Keep). distinct = distinct (mesh, selection) states".into();
+    cx.rule = "explicit-state search over selections (bit sets over the faces of a tetrahedron, a two-normal 'roof', an octahedron, the roof with an extra zero-area face, the roof with rotated index triples and an unwelded two-sided sheet): initial states none, all, every singleton, every pair; actions {Add, Remove, Keep} x {facing: 7 directions x 3 angles; near_mesh: 5 reference meshes (two large planes, an offset copy, a small square whose border the subject overhangs, a tilted plane) x all/any vertices x 2 distances x planar None/0.2 x angle None/0.3/1.0}; every transition (and the mesh built from every state) is executed under all hash-set iteration orders with at most 2 departures from the default order; the per-face predicate is computed (i) independently from the geometry for the plane references and (ii) by the code itself in the canonical context (singleton selection, Keep). distinct = distinct (mesh, selection) states".into();
     let t = tables();
     cx.bounds = json!({"max_deviations": MAX_DEV, "criteria": t.crits.len(), "meshes": 3, "depth": "closure", "execution_cap": EXEC_CAP});
     cx.require(&["non-initial selection", "empty selection", "full selection", "partial selection", "facing criterion", "near-mesh criterion with angle tolerance", "near-mesh criterion without angle tolerance", "independent predicate agrees"]);
